@@ -1,10 +1,38 @@
 /-
-  Driver ops for C08.
+  Driver ops for C08:
+    fragment  policy → membership in the proved fragments (`policyOK false/true`, `policyOKGo`)
+    marshal   policy (+ the tokens Go's scanner produced for Go's own `MarshalCedar` output) →
+              `text=<hex of the model's bytes> toks=same|diff` ; `skip` outside the modelled domain
 -/
-import CedarGo.Driver.Ops.Core
+import CedarGo.Driver.Ops.C07
+import CedarGo.Model.Text.Marshal
+import CedarGo.Model.Text.Fragment
 namespace CedarGo.Driver
-open Lean CedarGo
+open Lean CedarGo CedarGo.Text
 
-def c08Ops : List (String × Handler) := []
+def opMarshalC08 : Handler := fun _ j => do
+  let p ← decPolicy (← field j "policy")
+  if !policyModelled p then .error "unmodelled-policy" else
+  let ps := marshalPolicy p
+  let toks ← decTokensC07 (← field j "tokens")
+  let same := (pieceToks ps).map (fun t => (t.ty, t.text)) == toks.map (fun t => (t.ty, t.text))
+  .ok s!"text={hex (pieceText ps)} toks={if same then "same" else "diff"}"
+
+/-- the model parser applied to the model marshaller's tokens: `ok <policy>` / `err` -/
+def opMarshalParseC08 : Handler := fun _ j => do
+  let p ← decPolicy (← field j "policy")
+  if !policyModelled p then .error "unmodelled-policy" else
+  match parsePolicy (pieceToks (marshalPolicy p)) with
+  | none => .ok "fuel"
+  | some (.error _) => .ok "err"
+  | some (.ok q) => .ok ("ok " ++ showPolicyC07 false q)
+
+/-- is the policy inside the domains of the proved round-trip theorems (C07 renderMin / renderFull, C08 marshal)? -/
+def opFragmentC08 : Handler := fun _ j => do
+  let p ← decPolicy (← field j "policy")
+  let p := { p with position := {} }
+  .ok s!"min={policyOK false p} full={policyOK true p} go={policyOKGo p}"
+
+def c08Ops : List (String × Handler) := [("marshal", opMarshalC08), ("marshal-parse", opMarshalParseC08), ("fragment", opFragmentC08)]
 
 end CedarGo.Driver
